@@ -79,7 +79,7 @@ def main():
     V = E.Verdict(PID, tier, seed)
     rng = random.Random(seed * 275604541 + 12)
     V.coverage['rule'] = ('TLC: Transformers.tla - (1) every preset list of length <= 3 (thorough 4) over the vault\'s presets, one action per namespace: CollectionIsUnion; (2) the keep/drop '
-                          'rule on every multiset of output symbols {NaN,a,b,c} on <= 10 (thorough 12) rows incl. the exact 80% / 75% boundaries; (3) the fw sqrt family for every '
+                          'rule on every multiset of output symbols {NaN,a,b,c} on <= 8 (thorough 12) rows and on every multiset within one row of the 80% / 75% thresholds up to 60 (thorough 160) rows; (3) the fw sqrt family for every '
                           '(resolution, threshold, x) on the integer grid 0..150 and the probability grid 0..1 step 0.01 with exact integer rounding.  Each is bound to the real code: '
                           'transformer_collection of every list, construct_new_features on a column realising every multiset, every emitted fw column compared value by value; the '
                           'log kind and the minimal/default formulas are evaluated by a scalar oracle written from the transformer NAMES on negatives, zeros, huge values and empties. '
@@ -97,7 +97,7 @@ def main():
     preset_def = '[p \\in {' + ', '.join(f'"{p}"' for p in presets) + '} |-> CASE ' + ' [] '.join(
         f'p = "{p}" -> {{' + ', '.join(f'"{tid[n]}"' for n in sorted(vault[p])) + '}' for p in presets) + ']'
     base = {'PresetNames': '{' + ', '.join(f'"{p}"' for p in presets) + '}', 'Preset': '<- MC_Preset', 'MaxList': 3 if tier == 'quick' else 4, 'ResetInsideLoop': 'FALSE',
-            'MaxRowsKeep': 10 if tier == 'quick' else 12, 'SqrtBound': 13, 'Resolutions': '{1,10,50,100}', 'Thresholds': '{1,2,4,8,16,32,64,96}', 'MaxX': 150, 'Scale': 1}
+            'MaxRowsKeep': 8 if tier == 'quick' else 12, 'MaxRowsBig': 60 if tier == 'quick' else 160, 'SqrtBound': 13, 'Resolutions': '{1,10,50,100}', 'Thresholds': '{1,2,4,8,16,32,64,96}', 'MaxX': 150, 'Scale': 1}
     defs = {'MC_Preset': preset_def}
     Vt = E.Verdict(PID, tier, seed)
     rr, _ = tlc_part(Vt, 'deviation', defs, dict(base, Part='"presets"', MaxList=2, ResetInsideLoop='TRUE'), ['CollectionIsUnion'], None)
